@@ -320,7 +320,7 @@ Qed.
 
 Lemma sagree_print loc cmd s : sagree s -> sagree (fst (ec_print rvalid rfind loc cmd s)).
 Proof.
-  intro H. unfold ec_print. destruct (_ && _); [exact H|]. reg_destruct loc s. destruct bad; [exact Hs1|].
+  intro H. unfold ec_print. destruct (_ && _); [exact H|]. reg_destruct loc s. destruct (_ || _); [exact Hs1|].
   cbn [fst]. unfold sagree. cbn [lb set_xrow]. rewrite print_lines_lb. exact Hs1.
 Qed.
 
@@ -339,15 +339,15 @@ Proof. intro H. unfold ec_yank. reg_destruct loc s. destruct (_ || _); exact Hs1
 Lemma sagree_put loc arg s : sagree s -> sagree (fst (ec_put rvalid rfind loc arg s)).
 Proof.
   intro H. unfold ec_put. destruct (reg_special _); [exact H|]. destruct (reg_get s _); [|exact H].
-  reg_destruct loc s. destruct bad; [exact Hs1|]. cbn [fst]. unfold sagree. cbn [lb set_xrow]. apply sagree_edit, Hs1.
+  reg_destruct loc s. destruct (_ && _); [exact Hs1|]. cbn [fst]. unfold sagree. cbn [lb set_xrow]. apply sagree_edit, Hs1.
 Qed.
 
 Lemma sagree_lnum loc s : sagree s -> sagree (fst (ec_lnum rvalid rfind loc s)).
-Proof. intro H. unfold ec_lnum. reg_destruct loc s. destruct bad; exact Hs1. Qed.
+Proof. intro H. unfold ec_lnum. reg_destruct loc s. destruct (_ || _); exact Hs1. Qed.
 
 Lemma sagree_mark loc arg s : sagree s -> sagree (fst (ec_mark rvalid rfind loc arg s)).
 Proof.
-  intro H. unfold ec_mark. reg_destruct loc s. destruct bad; [exact Hs1|]. cbn [fst]. unfold sagree. cbn [lb set_lb].
+  intro H. unfold ec_mark. reg_destruct loc s. destruct (_ || _); [exact Hs1|]. cbn [fst]. unfold sagree. cbn [lb set_lb].
   apply marks_agree_mark, Hs1.
 Qed.
 
@@ -358,7 +358,7 @@ Qed.
 
 Lemma sagree_read loc arg s : sagree s -> sagree (fst (ec_read rvalid rfind readfile curpath loc arg s)).
 Proof.
-  intro H. unfold ec_read. destruct (_ || _); [exact H|]. reg_destruct loc s. destruct bad; [exact Hs1|].
+  intro H. unfold ec_read. destruct (_ || _); [exact H|]. reg_destruct loc s. destruct (_ && _); [exact Hs1|].
   destruct (readfile _); [|exact Hs1]. cbn [fst]. unfold sagree. cbn [lb emit set_xrow]. apply sagree_edit, Hs1.
 Qed.
 
@@ -371,7 +371,7 @@ Proof.
     destruct m; exact H0. }
   destruct (if xwa s then (s, false) else bufs_modified s) as [s0 m]. cbn [fst] in H0.
   destruct m; [exact H0|]. destruct (negb _); [exact H0|]. destruct loc as [|c loc]; [exact H0|].
-  reg_destruct (c :: loc) s0. destruct bad; [exact Hs1|]. destruct (filter _ _); [|exact Hs1].
+  reg_destruct (c :: loc) s0. destruct (_ || _); [exact Hs1|]. destruct (filter _ _); [|exact Hs1].
   cbn [fst]. apply sagree_edit, Hs1.
 Qed.
 
@@ -432,7 +432,7 @@ Lemma sagree_glob fuel loc cmd arg s : sagree s -> sagree (fst (ec_glob rvalid r
 Proof.
   intro H. unfold ec_glob.
   set (loc' := match loc, xgdep s with [], O => [37%N] | _, _ => loc end).
-  reg_destruct loc' s. destruct bad; [exact Hs1|].
+  reg_destruct loc' s. destruct (_ || _); [exact Hs1|].
   destruct (re_read arg) as [pat body].
   assert (H2 : sagree (kwdset_if s1 pat 1)) by (unfold sagree; rewrite kwdset_if_lb; exact Hs1).
   destruct (kwddir _ =? 0); [exact H2|]. destruct (negb _); [exact H2|]. cbn [fst].
@@ -443,7 +443,7 @@ Qed.
 Lemma sagree_at loc arg s : sagree s -> sagree (fst (ec_at rvalid rfind exec loc arg s)).
 Proof.
   intro H. unfold ec_at. destruct (reg_special _); [exact H|]. destruct (reg_get s _) as [buf|]; [|exact H].
-  reg_destruct loc s. destruct bad; [exact Hs1|].
+  reg_destruct loc s. destruct (_ || _); [exact Hs1|].
   pose proof (exec_ok buf (set_xrow s1 b) Hs1) as H2. destruct (exec buf (set_xrow s1 b)) as [s2 r]. exact H2.
 Qed.
 End Rec.
@@ -574,50 +574,47 @@ Proof.
   - unfold ec_insert. rewrite E. cbn [andb fst lb set_xrow]. apply ED; repeat match goal with |- context [if ?c then _ else _] => destruct c eqn:? end; lia.
   - unfold ec_insert. rewrite E. cbn [andb fst lb set_xrow]. apply ED; repeat match goal with |- context [if ?c then _ else _] => destruct c eqn:? end; lia.
   - unfold ec_insert. rewrite E. cbn [andb fst lb set_xrow]. apply ED; repeat match goal with |- context [if ?c then _ else _] => destruct c eqn:? end; lia.
-  - unfold ec_delete. rewrite E. cbn [orb]. destruct (slen s1 =? 0); [exact FR|]. cbn [fst lb set_xrow]. unfold ex_yank.
+  - unfold ec_delete. rewrite E. cbn [orb]. destruct (_ || _); [exact FR|]. cbn [fst lb set_xrow]. unfold ex_yank.
     change (lb (set_regs s1 ?r)) with (lb s1). apply (ED None b e); lia.
-  - unfold ec_mark. rewrite E. cbn [fst lb set_lb]. rewrite lbuf_mark_lns. exact FR.
-  - unfold ec_print. destruct (_ && _); [apply frame_refl; lia|]. rewrite E. cbn [fst lb set_xrow]. rewrite print_lines_lb. exact FR.
+  - unfold ec_mark. rewrite E. cbn [orb]. destruct (ex_zero _ _ _); [exact FR|]. cbn [fst lb set_lb]. rewrite lbuf_mark_lns. exact FR.
+  - unfold ec_print. destruct (_ && _); [apply frame_refl; lia|]. rewrite E. cbn [orb]. destruct (ex_zero _ _ _); [exact FR|].
+    cbn [fst lb set_xrow]. rewrite print_lines_lb. exact FR.
   - unfold ec_put. destruct (reg_special _); [apply frame_refl; lia|]. destruct (reg_get s _); [|apply frame_refl; lia].
-    rewrite E. cbn [fst lb set_xrow]. apply ED; lia.
-  - unfold ec_read. destruct (_ || _); [apply frame_refl; lia|]. rewrite E. destruct (readfile _); [|exact FR].
+    rewrite E. cbn [andb fst lb set_xrow]. apply ED; lia.
+  - unfold ec_read. destruct (_ || _); [apply frame_refl; lia|]. rewrite E. cbn [andb]. destruct (readfile _); [|exact FR].
     cbn [fst lb set_xrow emit]. destruct (slen s1 =? 0) eqn:Z0; apply ED; lia.
-  - unfold ec_yank. rewrite E. cbn [orb]. destruct (slen s1 =? 0); exact FR.
+  - unfold ec_yank. rewrite E. cbn [orb]. destruct (_ || _); exact FR.
   - unfold ec_exec. rewrite Hw. destruct (negb _); [apply frame_refl; lia|]. destruct loc as [|c loc]; [apply frame_refl; lia|].
-    rewrite E. destruct (filter _ _); [|exact FR]. cbn [fst]. apply ED; lia.
-  - unfold ec_lnum. rewrite E. exact FR.
+    rewrite E. cbn [orb]. destruct (ex_zero _ _ _); [exact FR|]. destruct (filter _ _); [|exact FR]. cbn [fst]. apply ED; lia.
+  - unfold ec_lnum. rewrite E. cbn [orb]. destruct (ex_zero _ _ _); exact FR.
 Qed.
 
 (* a command whose address does not resolve leaves the line buffer (lines, marks, undo history) untouched;
    the (0,0) outcome is what the text-adding commands a/i/c accept as "before the first line" *)
 Theorem rejected_simple a loc cmd arg txt s b e s1 : In a frame_cmds -> xwa s = true ->
   ex_region rvalid rfind loc s = (true, b, e, s1) ->
-  (In a [[97]; [105]; [99]]%N -> b <> 0 \/ e <> 0) ->
+  (In a [[97]; [105]; [99]; [112; 117]; [114]]%N -> b <> 0 \/ e <> 0) ->
   lb (fst (ex_simple rvalid rfind filter readfile curpath a loc cmd arg txt s)) = lb s /\
   snd (ex_simple rvalid rfind filter readfile curpath a loc cmd arg txt s) = 1.
 Proof.
   intros Ha Hw E Hz. pose proof (region_slen _ _ _ _ _ _ _ _ E) as L.
-  assert (INS : In a [[97]; [105]; [99]]%N ->
-     (lb (fst (ec_insert rvalid rfind loc cmd txt s)) = lb s /\ snd (ec_insert rvalid rfind loc cmd txt s) = 1)).
-  { intro I. unfold ec_insert. rewrite E. specialize (Hz I).
-    assert (X : negb (b =? 0) || negb (e =? 0) = true).
-    { destruct Hz as [Hz|Hz]; [apply Z.eqb_neq in Hz; rewrite Hz; reflexivity | apply Z.eqb_neq in Hz; rewrite Hz; apply orb_true_r]. }
-    rewrite X. cbn [andb fst snd]. split; [exact L | reflexivity]. }
+  assert (X : In a [[97]; [105]; [99]; [112; 117]; [114]]%N -> negb (b =? 0) || negb (e =? 0) = true).
+  { intro I. destruct (Hz I) as [Hz'|Hz']; [apply Z.eqb_neq in Hz'; rewrite Hz'; reflexivity | apply Z.eqb_neq in Hz'; rewrite Hz'; apply orb_true_r]. }
   cbn [frame_cmds In] in Ha.
   repeat (destruct Ha as [Ha|Ha]; [subst a; pick_cmd|]); [..|contradiction].
-  - apply INS. cbn; auto.
-  - apply INS. cbn; auto.
-  - apply INS. cbn; auto.
+  - unfold ec_insert. rewrite E. rewrite X by (cbn; repeat (first [left; reflexivity | right])). cbn [andb fst snd]. auto.
+  - unfold ec_insert. rewrite E. rewrite X by (cbn; repeat (first [left; reflexivity | right])). cbn [andb fst snd]. auto.
+  - unfold ec_insert. rewrite E. rewrite X by (cbn; repeat (first [left; reflexivity | right])). cbn [andb fst snd]. auto.
   - unfold ec_delete. rewrite E. cbn [orb fst snd]. auto.
-  - unfold ec_mark. rewrite E. cbn [fst snd]. auto.
-  - unfold ec_print. destruct (_ && _); [cbn [fst snd]; auto|]. rewrite E. cbn [fst snd]. auto.
+  - unfold ec_mark. rewrite E. cbn [orb fst snd]. auto.
+  - unfold ec_print. destruct (_ && _); [cbn [fst snd]; auto|]. rewrite E. cbn [orb fst snd]. auto.
   - unfold ec_put. destruct (reg_special _); [cbn [fst snd flag lb]; auto|]. destruct (reg_get s _); [|cbn [fst snd]; auto].
-    rewrite E. cbn [fst snd]. auto.
-  - unfold ec_read. destruct (_ || _); [cbn [fst snd flag lb]; auto|]. rewrite E. cbn [fst snd]. auto.
+    rewrite E. rewrite X by (cbn; repeat (first [left; reflexivity | right])). cbn [andb fst snd]. auto.
+  - unfold ec_read. destruct (negb (plain_arg arg) || _); [cbn [fst snd flag lb]; auto|]. rewrite E. rewrite X by (cbn; repeat (first [left; reflexivity | right])). cbn [andb fst snd]. auto.
   - unfold ec_yank. rewrite E. cbn [orb fst snd]. auto.
-  - unfold ec_exec. rewrite Hw. destruct (negb _); [cbn [fst snd flag lb]; auto|]. destruct loc as [|c loc]; [cbn [fst snd flag lb]; auto|].
-    rewrite E. cbn [fst snd]. auto.
-  - unfold ec_lnum. rewrite E. cbn [fst snd]. auto.
+  - unfold ec_exec. rewrite Hw. destruct (negb (plain_arg arg)); [cbn [fst snd flag lb]; auto|]. destruct loc as [|c loc]; [cbn [fst snd flag lb]; auto|].
+    rewrite E. cbn [orb fst snd]. auto.
+  - unfold ec_lnum. rewrite E. cbn [orb fst snd]. auto.
 Qed.
 
 End ExQ.
@@ -656,13 +653,13 @@ Variable rfind : bytes -> bytes -> bool -> option (nat * nat).
 Lemma region_texts loc s bad b e s1 : ex_region rvalid rfind loc s = (bad, b, e, s1) -> texts s1 = texts s.
 Proof. intro E. unfold texts. rewrite (region_slen _ _ _ _ _ _ _ _ E). reflexivity. Qed.
 
-Theorem delete_refines loc arg s b e s1 : ex_region rvalid rfind loc s = (false, b, e, s1) -> slen s <> 0 ->
+Theorem delete_refines loc arg s b e s1 : ex_region rvalid rfind loc s = (false, b, e, s1) -> slen s <> 0 -> ex_zero loc b e = false ->
   let s' := fst (ec_delete rvalid rfind loc arg s) in
   (texts s', xrow s') = ref_delete (texts s) b e.
 Proof.
-  intros E Hn. pose proof (region_bounds _ _ _ _ _ _ _ E) as (B1 & B2 & B3). pose proof (region_texts _ _ _ _ _ _ E) as T.
+  intros E Hn Hz. pose proof (region_bounds _ _ _ _ _ _ _ E) as (B1 & B2 & B3). pose proof (region_texts _ _ _ _ _ _ E) as T.
   assert (L : slen s1 = slen s) by (unfold slen; rewrite (region_slen _ _ _ _ _ _ _ _ E); reflexivity).
-  unfold ec_delete. rewrite E. cbn [orb]. rewrite L. destruct (slen s =? 0) eqn:Z0; [lia|]. cbn [fst].
+  unfold ec_delete. rewrite E, Hz. cbn [orb]. rewrite L. destruct (slen s =? 0) eqn:Z0; [lia|]. cbn [fst].
   unfold ref_delete. cbn [xrow set_xrow].
   assert (TE : texts (edit (ex_yank s1 (REG arg) b e) None b e) = splice (Z.to_nat b) (Z.to_nat e) [] (texts s)).
   { rewrite texts_edit; [rewrite <- T; reflexivity | lia | unfold ex_yank, slen; cbn [lb set_regs]; fold (slen s1); lia]. }
@@ -702,14 +699,14 @@ Proof.
     + unfold ref_insert. cbn [andb] in Hb'. subst b'. f_equal. unfold clampz. rewrite LEN. lia.
 Qed.
 
-Theorem print_refines loc cmd s b e s1 : ex_region rvalid rfind loc s = (false, b, e, s1) -> (cmd <> [] \/ loc <> []) ->
+Theorem print_refines loc cmd s b e s1 : ex_region rvalid rfind loc s = (false, b, e, s1) -> (cmd <> [] \/ loc <> []) -> ex_zero loc b e = false ->
   let s' := fst (ec_print rvalid rfind loc cmd s) in
   texts s' = texts s /\ xrow s' = snd (ref_print (texts s) b e) /\
   out s' = rev (map OLine (fst (ref_print (texts s) b e))) ++ out s1.
 Proof.
-  intros E Hc. unfold ec_print.
+  intros E Hc Hz. unfold ec_print.
   assert (X : (match cmd, loc with [], [] => true | _, _ => false end) = false) by (destruct cmd; destruct loc; try reflexivity; destruct Hc; congruence).
-  rewrite X. cbn [andb]. rewrite E. cbn [fst xrow set_xrow]. change (texts (set_xrow ?x ?r)) with (texts x).
+  rewrite X. cbn [andb]. rewrite E, Hz. cbn [orb fst xrow set_xrow]. change (texts (set_xrow ?x ?r)) with (texts x).
   assert (P : forall l s0, texts (print_lines l s0) = texts s0 /\ out (print_lines l s0) = rev (map OLine (map ltxt l)) ++ out s0).
   { induction l as [|x l IH]; intro s0; [split; reflexivity|]. cbn [print_lines map rev]. destruct (IH (emit s0 (OLine (ltxt x)))) as [I1 I2].
     split; [rewrite I1; reflexivity | rewrite I2; cbn [out emit]; rewrite <- app_assoc; reflexivity]. }
